@@ -174,6 +174,7 @@ func genC16(e *emitter, tier string, seed int64) {
 		{"err.p", "z = 0\nadd_key(before, 1)\nx = 1 / z\n"},
 		// engines with internal state (the SQL obfuscator adapts to what it has seen): every run as if alone
 		{"sql.p", "sql_cover(message)\np(get_key(message))\nurl_decode(url)\n"},
+		{"fmtlist.p", "j = load_json(\"[1, [2, 3], {\\\"a\\\": [4]}]\")\nstrfmt(out, \"%v|%v\", j, [message, j])\np(get_key(out))\n"},
 		{"xmlgroup.p", "xml(xdoc, \"(//b)[1]\", out)\nxml(xdoc, \"(//b)[last()]\", out2)\np(get_key(out), get_key(out2))\n"},
 		// a value decoded from a literal belongs to the run that decoded it
 		{"jsonlit.p", "t = load_json(\"{\\\"a\\\": [1, 2], \\\"n\\\": 0}\")\nt[\"a\"][0] += 1\nt[\"n\"] = t[\"n\"] + len(message)\nl = [1, 2]\nl[0] += 1\np(t, l)\n"},
@@ -186,7 +187,7 @@ func genC16(e *emitter, tier string, seed int64) {
 		{"code2.p", "add_pattern(\"code\", \"[a-z]+\")\nif true {\n  grok(_, \"%{WORD:w} %{code:c}\")\n}\np(get_key(w), get_key(c))\n"},
 		{"code3.p", "if true {\n  add_pattern(\"code\", \"4\")\n  grok(_, \"%{WORD:w} %{code:c}\")\n}\nadd_pattern(\"code\", \".+\")\ngrok(_, \"%{WORD:w} %{code:c}\")\np(get_key(w), get_key(c))\n"},
 	}
-	entries := []string{"grok.p", "use.p", "lib.p", "misc.p", "err.p", "sql.p", "sql.p", "code1.p", "code2.p", "code3.p", "errblk.p", "reader.p", "reader.p", "jsonlit.p", "jsonlit.p", "xmlgroup.p", "xmlgroup.p"}
+	entries := []string{"grok.p", "use.p", "lib.p", "misc.p", "err.p", "sql.p", "sql.p", "code1.p", "code2.p", "code3.p", "errblk.p", "reader.p", "reader.p", "jsonlit.p", "jsonlit.p", "xmlgroup.p", "xmlgroup.p", "fmtlist.p", "fmtlist.p"}
 	parseSrcs := []string{"a = 1\nif a {\n  b = [1, 2]\n}\n", "x = \"str\" # c\nfor i = 0; i < 3; i = i + 1 {\n}\n", "broken ( [", "'''multi\nline'''\n", "f(a = 1, 2 +)", "use(\"q.p\")\n",
 		"x = (1 + [2", "y = f(1))\n", "}\n", "a = [1, 2]]\n", "m = {\"k\": (1\n", "z = a[1\n", "if x {\n  y = 1\n", "f(g(h(1, [2, {\"a\": 3}])))\n", "v = (1 + 2) * [3][0]\n"}
 	points := []pointSpec{
